@@ -6,7 +6,7 @@
    `c16 run <facts> <lists> <progs> <sched>` → the observation of one schedule (`invalid@k` if
                                                step k is not enabled)
 
-   facts : `gen` (regenerated from the source) or two digits `<get><ffiGet>` (1 = clone under guard)
+   facts : `gen` (regenerated from the source) or three digits `<get><ffiGet><eq>` (1 = clone under guard / `==` locks in address order)
    lists : `L1.2.3;L;L4`        progs : threads `;`-separated, ops `,`-separated:
            g<l>.<i> get   f<l>.<i> ffi get   p<l>.<v> push   c<a>.<b> concat   h<l>.<v> contains
            s<l>.<i>.<j> swap   n<l> len   k<l> clone   d<l> drop   e<a>.<b> ==
@@ -55,11 +55,13 @@ def parseLists (s : String) : Option (List (List Nat)) :=
 def parseFacts (s : String) : Option Facts :=
   match s with
   | "gen" => some RotoV.Gen.C16.facts
-  | "00" => some ⟨false, false⟩
-  | "01" => some ⟨false, true⟩
-  | "10" => some ⟨true, false⟩
-  | "11" => some ⟨true, true⟩
-  | _ => none
+  | _ =>
+    match s.toList with
+    | [g, f, e] =>
+      if [g, f, e].all (fun c => c == '0' || c == '1') then
+        some ⟨g == '1', f == '1', e == '1'⟩
+      else none
+    | _ => none
 
 def parseSched (s : String) : Option (List Nat) :=
   s.toList.mapM fun c => if c.isDigit then some (c.toNat - '0'.toNat) else none
@@ -108,7 +110,7 @@ def handle (args : List String) : String :=
   match args with
   | ["facts"] =>
     let f := RotoV.Gen.C16.facts
-    s!"get={f.getUnderGuard} ffiGet={f.ffiGetUnderGuard}"
+    s!"get={f.getUnderGuard} ffiGet={f.ffiGetUnderGuard} eqOrdered={f.eqOrdered}"
   | ["enum", f, ls, ps] =>
     match parseFacts f, parseLists ls, parseProgs ps with
     | some F, some lists, some progs =>
